@@ -454,8 +454,13 @@ def _run(case, obs, keep_re):
         seg["hook_base"] = len(obs.hook)
         at_msg.clear()
         loop.begin_segment({}, hold=True)
+        prec["cb_docs_before"] = len(obs.cb_docs)
+        prec["docs_before"] = len(obs.docs)
         try:
-            prec["value"] = RE([Msg("null")])
+            if case.get("probe") == "run":
+                prec["value"] = RE([Msg("open_run", probe=True), Msg("close_run")])
+            else:
+                prec["value"] = RE([Msg("null")])
             prec["outcome"] = "return"
         except Stuck:
             prec["outcome"] = "stuck"
@@ -467,6 +472,7 @@ def _run(case, obs, keep_re):
         finally:
             loop.open_gate()
         prec["state_after"] = str(RE.state)
+        prec["cb_docs_after"] = len(obs.cb_docs)
         prec["hook_start"] = seg.get("hook_base", 0)
         loop.wait_idle()
     obs.total_handles = loop.total
